@@ -20,6 +20,7 @@ func init() { registry["C17"] = c17Oracle }
 type h5Construct struct {
 	name   string
 	opener string
+	ctx    int // start context (0 = data state); 2,3,4 = inside a single-/double-/back-quoted value
 	typ    int // token type of the construct
 	tokIdx int // index of the construct's token in the stream of opener+body
 	offAdj int // token offset = len(opener) + offAdj
@@ -73,6 +74,10 @@ var h5Constructs = []h5Construct{
 	{name: "single_quoted_value", opener: "<a b='", typ: h5AttrVal, tokIdx: 2, alpha: []string{"'", "\"", ">", "\x00", "<", "a", " "}, find: func(b string) (int, int) { return idx(b, "'") }},
 	{name: "double_quoted_value", opener: "<a b=\"", typ: h5AttrVal, tokIdx: 2, alpha: []string{"\"", "'", ">", "\x00", "<", "a", " "}, find: func(b string) (int, int) { return idx(b, "\"") }},
 	{name: "back_quoted_value", opener: "<a b=`", typ: h5AttrVal, tokIdx: 2, alpha: []string{"`", "'", ">", "\x00", "<", "a", " "}, find: func(b string) (int, int) { return idx(b, "`") }},
+	// the same three value forms entered through the start context (virtual opening quote at offset 0)
+	{name: "single_quoted_context", ctx: 2, typ: h5AttrVal, alpha: []string{"'", "\"", ">", "\x00", "<", "a", " "}, find: func(b string) (int, int) { return idx(b, "'") }},
+	{name: "double_quoted_context", ctx: 3, typ: h5AttrVal, alpha: []string{"\"", "'", ">", "\x00", "<", "a", " "}, find: func(b string) (int, int) { return idx(b, "\"") }},
+	{name: "back_quoted_context", ctx: 4, typ: h5AttrVal, alpha: []string{"`", "'", ">", "\x00", "<", "a", " "}, find: func(b string) (int, int) { return idx(b, "`") }},
 }
 
 func sameShifted(a []lib.VH5Token, b []lib.VH5Token, shift int) bool {
@@ -126,8 +131,14 @@ func c17Oracle(c ev.Case) Res {
 			return Res{Class: "skipped_other_construct"}
 		}
 		pre := c.In2 // text prefix without '<'
+		if hc.ctx != 0 {
+			pre = "" // a start context applies to offset 0 only
+			if body == "" {
+				return Res{}
+			}
+		}
 		s := pre + hc.opener + body
-		toks := lib.VH5Tokens(s, 0, len(s)+3)
+		toks := lib.VH5Tokens(s, hc.ctx, len(s)+3)
 		ti := hc.tokIdx
 		if pre != "" {
 			ti++
@@ -154,7 +165,7 @@ func c17Oracle(c ev.Case) Res {
 			}
 		} else if hc.typ == h5AttrVal {
 			// resumption: what follows the closing quote does not depend on the value's content
-			ref := lib.VH5Tokens(pre+hc.opener+body[start:], 0, len(s)+3)
+			ref := lib.VH5Tokens(pre+hc.opener+body[start:], hc.ctx, len(s)+3)
 			if len(ref) <= ti || !sameShifted(rest, ref[ti+1:], start) {
 				return fail("%s: tokens after the closing quote differ from those with an empty value: %s vs %s", hc.name, showH5(toks), showH5(ref))
 			}
@@ -186,7 +197,7 @@ func TestC17(t *testing.T) {
 	p = c.rec.NewPart("inv_atoms_exhaustive", "invariants on every concatenation of 1..3 markup atoms", false, true, "")
 	c.EnumSeq(p, htmlAtoms, "", 1, 3, func(w *Worker, s string) { w.Judge(ev.Case{Kind: "inv", In: s}) })
 
-	Lb := pick(7, 8)
+	Lb := pick(8, 9)
 	for k, hc := range h5Constructs {
 		k := k
 		p = c.rec.NewPart("term_"+hc.name, fmt.Sprintf("opener %q + every body of length 0..%d over the decoy alphabet %q, alone and behind the text prefix \"x>\"", hc.opener, Lb, hc.alpha), false, true, "")
@@ -199,14 +210,14 @@ func TestC17(t *testing.T) {
 
 	p = c.rec.NewPart("rapid_term_long_bodies", "rapid: construct x body of fragments (up to ~150 bytes) x text prefix", true, false, "")
 	g := gen.HTMLInput()
-	c.Rapid(p, 8, pick(20000, 500000), func(rt *rapid.T, sh int) ev.Case {
+	c.Rapid(p, 8, pick(60000, 700000), func(rt *rapid.T, sh int) ev.Case {
 		k := rapid.IntRange(0, len(h5Constructs)-1).Draw(rt, "construct")
 		body := g.Draw(rt, "body")
 		pre := strings.ReplaceAll(rapid.SampledFrom([]string{"", "", "x", "a b", ">", "'\">"}).Draw(rt, "pre"), "<", "")
 		return ev.Case{Kind: "term", N: k, In: body, In2: pre}
 	})
 	p = c.rec.NewPart("rapid_inv", "rapid: invariants over the HTML fragment grammar and mutated corpus", true, false, "")
-	c.Rapid(p, 8, pick(20000, 500000), func(rt *rapid.T, sh int) ev.Case {
+	c.Rapid(p, 8, pick(60000, 700000), func(rt *rapid.T, sh int) ev.Case {
 		if rapid.Bool().Draw(rt, "src") {
 			return ev.Case{Kind: "inv", In: g.Draw(rt, "in")}
 		}
